@@ -15,7 +15,7 @@ fn gen_prog(r: &mut Rng) -> Vec<H> {
     let ns = 2 + r.below(11);
     let depth = 2 + r.below(5);
     let mut stmts = {
-        let mut g = Gen::new(r, GenCfg { inputs: true, odd_strings: true, ..GenCfg::default() });
+        let mut g = Gen::new(r, GenCfg { inputs: true, odd_strings: true, shadowing_permille: 200, ..GenCfg::default() });
         g.program(ns, depth, &NAMES).0
     };
     // sort / reverse / unique / spread on shared lists, random(seed), closures over >= 3 names, records with >= 3 keys
